@@ -1216,6 +1216,13 @@ fn main() {
         for n in if th { (0..=65535).collect::<Vec<i64>>() } else { (0..=1100).chain([65535]).collect() } {
             cases.push(mk(chip, "symbtimeout", vec![n], 0));
         }
+        // the two timeout MSBs share RegModemConfig2 with the spreading factor: every prior content of that register
+        // (a longer window programmed earlier leaves its MSBs behind) at both sides of every 256-symbol boundary
+        for n in [0i64, 4, 5, 19, 100, 255, 256, 257, 511, 512, 767, 768, 1022, 1023, 1024, 65535] {
+            for pr in 1..=255u8 {
+                cases.push(mk(chip, "symbtimeout", vec![n], pr));
+            }
+        }
         for rq in -128..=127 {
             for &pr in &priors {
                 cases.push(mk(chip, "power", vec![rq], pr));
@@ -1267,7 +1274,7 @@ fn main() {
         "evaluations": ctx.evals(),
         "distinct_nontrivial": compared.load(Ordering::Relaxed),
         "per_operation": per_op_json,
-        "rule": "per shared operation the full product of its parameter domain, run on the real lora-phy driver and on Semtech's SWL2001 C driver (smtc-modem-cores) from the same register state: sleep warm/cold, standby, RF frequency (every 100 Hz LoRaWAN channel in thorough + stride over 137-1020 MHz + every 1 Hz of a full 15 625 Hz rounding period in three bands), LoRa modulation parameters (SF x BW x CR x prior register values), packet parameters (preamble set x header x payload length x CRC x IQ x prior values), sync word (all 256), buffer base, buffer/FIFO writes of every length 0..255, TX start, IRQ masks per mode, IRQ clear, RX start with every symbol timeout, CAD per SF, image calibration per band, TX continuous wave, PA configuration + TX parameters for every power -128..127 x ramp x prior values, status reads; depth-2 sequences of the read-modify-write operations; depth-3 sequences X ; {sleep cold, sleep warm, standby, chip reset} ; Y of the same kind of operation on one driver instance (SX126x against the reference; SX127x against a fresh instance of the driver on the same registers, which the single-operation comparison ties to the reference). SX126x: equality of the canonical wire form (opcode + parameters with trailing NOPs trimmed, total bytes clocked); SX127x: equality of the chip-visible outcome (register file subset stated per operation, FIFO stream)",
+        "rule": "per shared operation the full product of its parameter domain, run on the real lora-phy driver and on Semtech's SWL2001 C driver (smtc-modem-cores) from the same register state: sleep warm/cold, standby, RF frequency (every 100 Hz LoRaWAN channel in thorough + stride over 137-1020 MHz + every 1 Hz of a full 15 625 Hz rounding period in three bands), LoRa modulation parameters (SF x BW x CR x prior register values), packet parameters (preamble set x header x payload length x CRC x IQ x prior values), sync word (all 256), buffer base, buffer/FIFO writes of every length 0..255, TX start, IRQ masks per mode, IRQ clear, RX start with every symbol timeout (SX127x: boundary timeouts x all 256 prior contents of the shared register), CAD per SF, image calibration per band, TX continuous wave, PA configuration + TX parameters for every power -128..127 x ramp x prior values, status reads; depth-2 sequences of the read-modify-write operations; depth-3 sequences X ; {sleep cold, sleep warm, standby, chip reset} ; Y of the same kind of operation on one driver instance (SX126x against the reference; SX127x against a fresh instance of the driver on the same registers, which the single-operation comparison ties to the reference). SX126x: equality of the canonical wire form (opcode + parameters with trailing NOPs trimmed, total bytes clocked); SX127x: equality of the chip-visible outcome (register file subset stated per operation, FIFO stream)",
         "exhaustive": true,
     });
     let replayer = |cj: &Value| -> Vec<String> {
